@@ -75,8 +75,8 @@ def _lut_ws(lut16):
     return {b for b in range(128) if lut16[b & 15] == b} | ({b for b in range(128, 256) if False})
 
 
-def r02_2(ctx):
-    prog = ctx.prog()
+def r02_2(ctx, config="native"):
+    prog = ctx.prog(config)
     m = prog.const_int("is_whitespace::SPACE_MASK")
     got = {i for i in range(64) if (m >> i) & 1}
     ctx.ob("R02.2", "SPACE_MASK", got == WS, "src/parser.rs", f"is_whitespace::SPACE_MASK denotes {sorted(hex(x) for x in got)}")
@@ -117,6 +117,32 @@ def r02_2(ctx):
                 l0 = op_local(t["args"][0])
                 ok0 = l0 is not None and setr[0][1]["dest"][0] in (backward_slice(gn, [l0])[0] | {l0})
                 ctx.ob("R02.2", f"x86-lut:operand-order@{t['ln']}", ok0, gn.loc(t["ln"]), "pshufb(table = LUT, index = data)")
+    elif any("vqtbl1q_u8" in t["callee"] for f in [gn] + [x for x in prog.fns.values() if x.id.startswith(gn.id + "::")] for b, t in f.calls()):
+        # aarch64 nibble tables: whitespace iff LOW[b & 15] & HIGH[b >> 4] & mask != 0
+        helper = [x for x in prog.fns.values() if x.id.startswith(gn.id + "::") and any("vqtbl1q_u8" in t["callee"] for b, t in x.calls())]
+        hf = helper[0] if helper else gn
+        low = prog.const("chunk_nonspace_bits::LOW_TAB", required=False)
+        high = prog.const("chunk_nonspace_bits::HIGH_TAB", required=False)
+        if not low or not high or "bytes" not in low or "bytes" not in high:
+            ctx.ob("R02.2", "neon-tables", False, hf.loc(), "nibble tables not found / not evaluable (fail closed)")
+        else:
+            lo_t, hi_t = bytes.fromhex(low["bytes"]), bytes.fromhex(high["bytes"])
+            splats = [op_int(t["args"][0]) for b, t in hf.calls() if t["callee"].rsplit("::", 1)[-1] in ("vmovq_n_u8", "vdupq_n_u8")]
+            shr = [t for b, t in hf.calls() if "vshrq_n_u8" in t["callee"]]
+            shift = None
+            for t in shr:
+                for g in (t.get("rgargs") or t.get("gargs") or []):
+                    if g.isdigit():
+                        shift = int(g)
+            nibble_mask = 0xF if 0xF in splats else None
+            wmask = [v for v in splats if v not in (0xF, None)]
+            ok_shape = nibble_mask == 0xF and shift == 4 and len(wmask) == 1 and any("vtstq_u8" in t["callee"] for b, t in hf.calls()) and any("vandq_u8" in t["callee"] for b, t in hf.calls())
+            ctx.ob("R02.2", "neon-shape", ok_shape, hf.loc(), f"lo = b & {nibble_mask}, hi = b >> {shift}, test mask {wmask}: two table lookups AND-ed and tested against the whitespace mask")
+            if ok_shape and len(lo_t) == 16 and len(hi_t) == 16:
+                sset = {b for b in range(256) if lo_t[b & 15] & hi_t[b >> 4] & wmask[0]}
+                ctx.ob("R02.2", "neon-tables", sset == WS, hf.loc(), f"nibble-table classifier evaluated over all 256 bytes accepts {sorted(hex(x) for x in sset)}")
+        nots = [s for b, i, s in gn.assigns() if s["rv"]["k"] == "unop" and s["rv"]["op"] == "Not"]
+        ctx.ob("R02.2", "neon-negated", len(nots) >= 1, gn.loc(), "the whitespace mask is negated into non-space bits")
     else:
         # portable classifier: a switch over the byte with exactly the four whitespace arms
         found = False
